@@ -64,6 +64,9 @@ fn scenarios(thorough: bool) -> Vec<Scenario> {
         Scenario { name: "roll-activate", prefix: vec![Op::RollInit { ca: c() }], cold: false, before: vec![], op: Op::RollActivate { ca: c() } },
         // a snapshot round (the daily task) after changes: every aggregate's
         // snapshot and the repository content log's snapshot + change sets
+        // a publisher with content is removed: two stores (access aggregate,
+        // content log) and the served files have to agree afterwards
+        Scenario { name: "publisher-removed", prefix: vec![Op::AddCa { ca: "alice".into() }, Op::PubDelta { publisher: "alice".into(), elems: vec![crate::ops::PubEl::Publish { uri: "rsync://localhost/repo/alice/a.txt".into(), content: 1 }] }], cold: false, before: vec![], op: Op::RemovePublisher { publisher: "alice".into() } },
         Scenario { name: "snapshots-after-changes", prefix: vec![Op::Snapshots, Op::Roa { ca: c(), add: vec!["10.0.4.0/24 => 65000".into()], del: vec![] }], cold: false, before: vec![], op: Op::Snapshots },
     ];
     if thorough {
@@ -135,7 +138,21 @@ pub fn observable(w: &World) -> Value {
     };
     let mut pubs: Vec<String> = w.krill.repo_manager().publishers().unwrap_or_default().iter().map(|p| p.to_string()).collect();
     pubs.sort();
-    json!({"cas": cas, "rp": rp, "publishers": pubs})
+    // what the RRDP snapshot serves, per publisher directory (object names
+    // carry key identifiers, so only the numbers are comparable)
+    let mut served: BTreeMap<String, u64> = BTreeMap::new();
+    match crate::rp::view_from_rrdp(w) {
+        Ok((view, _)) => {
+            for uri in view.keys() {
+                let dir = uri.strip_prefix("rsync://localhost/repo/").and_then(|r| r.split('/').next()).unwrap_or("?");
+                *served.entry(dir.to_string()).or_default() += 1;
+            }
+        }
+        Err(e) => {
+            served.insert(format!("error: {e}"), 0);
+        }
+    }
+    json!({"cas": cas, "rp": rp, "publishers": pubs, "served_objects": served})
 }
 
 /// number of recorded commands of a CA
